@@ -64,7 +64,7 @@ func genC07(t *rapid.T) C07Case {
 			BadVars:  rapid.IntRange(0, 2).Draw(t, "badvars") == 0,
 			Custom:   true, Consts: true, Aliases: true, VarW: 8,
 		}}
-		tree := wrapRoot(g.Expr(rootTy(t), g.Depth))
+		tree := wrapRoot(g.Program(rootTy(t)))
 		fixEmptyLists(tree)
 		u := UniverseFor(t, tree, false)
 		c.Progs = append(c.Progs, C07Prog{U: *u, Tree: tree, Mask: rapid.IntRange(0, 15).Draw(t, "mask"), Events: pickW(t, "events", 3, 1, 1), Src: m.Render(tree)})
